@@ -364,6 +364,42 @@ func c10Route(r *Run, rawPeer bool) {
 	if !handshakeOK {
 		return
 	}
+	accepted := c10Judge(r, &c10Obs{reqs: reqs, sentPages: sentPages, sentEvents: sentEvents, handlerSeen: handlerSeen, chanEvents: chanEvents,
+		overflowMode: overflowMode, maxPending: maxPending, N: N, nEvents: nEvents})
+	r.Nontrivial = accepted >= 2 && r.repoSwitches > 0
+	if r.Spec.Trace {
+		var lines []string
+		for _, rec := range reqs {
+			id := int16(-1)
+			if rec.req != nil {
+				id = rec.req.StreamId()
+			}
+			lines = append(lines, fmt.Sprintf("%s id=%d refused=%v got=%v", rec.tag, id, rec.sendErr != nil, rec.got))
+		}
+		r.Sample = map[string]interface{}{"requests": lines, "server_arrival_order": serverGot, "events": sentEvents}
+	}
+	_ = message.Ready{}
+	_ = primitive.OpCodeReady
+}
+
+// c10Obs is what a routing session observed; c10Judge is the oracle over it (shared by the session
+// against the library's own server connection and the one against the raw refwire server).
+type c10Obs struct {
+	reqs         []*c10Req
+	sentPages    map[string][]string
+	sentEvents   []string
+	handlerSeen  [2][]string
+	chanEvents   []string
+	overflowMode bool
+	maxPending   int
+	N            int
+	nEvents      int
+}
+
+func c10Judge(r *Run, o *c10Obs) int {
+	const P = "C10"
+	reqs, sentPages, sentEvents, handlerSeen, chanEvents := o.reqs, o.sentPages, o.sentEvents, o.handlerSeen, o.chanEvents
+	overflowMode, maxPending, N, nEvents := o.overflowMode, o.maxPending, o.N, o.nEvents
 	accepted := 0
 	overflowedTags := map[string]bool{}
 	owner := map[string]string{} // page tag -> request tag that received it
@@ -463,20 +499,7 @@ func c10Route(r *Run, rawPeer bool) {
 	check("channel", chanEvents, nEvents > N)
 	check("handler", handlerSeen[0], false)
 	check("handler", handlerSeen[1], false)
-	r.Nontrivial = accepted >= 2 && r.repoSwitches > 0
-	if r.Spec.Trace {
-		var lines []string
-		for _, rec := range reqs {
-			id := int16(-1)
-			if rec.req != nil {
-				id = rec.req.StreamId()
-			}
-			lines = append(lines, fmt.Sprintf("%s id=%d refused=%v got=%v", rec.tag, id, rec.sendErr != nil, rec.got))
-		}
-		r.Sample = map[string]interface{}{"requests": lines, "server_arrival_order": serverGot, "events": sentEvents}
-	}
-	_ = message.Ready{}
-	_ = primitive.OpCodeReady
+	return accepted
 }
 
 func mustAddr(s string) *net.TCPAddr {
@@ -485,4 +508,294 @@ func mustAddr(s string) *net.TCPAddr {
 		panic(err)
 	}
 	return a
+}
+
+// ---- "routeraw": the same routing property against a raw (refwire) server that also chooses the v5
+// segmentation: several response envelopes in one segment, envelopes split over segments ----
+
+func init() {
+	Register(&Scenario{Name: "routeraw", Property: "C10", Body: c10RouteRaw})
+	pd := props["C10"]
+	prev := pd.Case
+	pd.Case = func(w *Worker, i int) {
+		prev(w, i)
+		if i%3 == 0 {
+			w.Exec(RunSpec{Scenario: "routeraw", Index: i})
+		}
+	}
+}
+
+func c10RouteRaw(r *Run) {
+	const P = "C10"
+	T := r.T
+	v := r.DrawVersion()
+	comp := r.DrawCompression(v)
+	N := 1 + T.Draw("maxInFlight", 12)
+	maxPending := 1 + T.Draw("maxPending", 4)
+	K := 1 + T.Draw("senders", 6)
+	M := 1 + T.Draw("requests", 4)
+	nEvents := T.Draw("events", N+1)
+	nSpurious := T.Draw("spurious", 3)
+	opts := LinkOpts{
+		Capacity:   []int{1 << 20, 256, 4096, 7}[T.DrawP("capacity", 4, 0.6)],
+		Latency:    ms([]int{0, 1, 20}[T.Draw("latency", 3)]),
+		ChunkReads: T.Bool("chunkReads", 0.5),
+	}
+	r.Config["version"] = v.String()
+	r.Config["compression"] = string(comp)
+	r.Config["maxInFlight"] = fmt.Sprint(N)
+	r.Config["maxPending"] = fmt.Sprint(maxPending)
+	r.Config["senders"] = fmt.Sprint(K)
+	r.Config["requests"] = fmt.Sprint(M)
+	r.Config["events"] = fmt.Sprint(nEvents)
+	r.Config["peer"] = "raw refwire server"
+	plans := map[string]c10Plan{}
+	paceMs := map[string]int{}
+	for i := 0; i < K; i++ {
+		for j := 0; j < M; j++ {
+			p := c10Plan{pages: 1}
+			if v.IsDse() && T.Bool("paged", 0.5) {
+				p.pages = 1 + T.Draw("pages", maxPending)
+			}
+			tag := fmt.Sprintf("q%d.%d", i, j)
+			plans[tag] = p
+			paceMs[tag] = T.DrawP("pacems", 40, 0.5)
+		}
+	}
+	ctx, cancel := context.WithCancel(context.Background())
+	a, b := r.Net.Pair("L", r.Net.NewClientAddr(), mustAddr("10.0.0.2:9042"), opts)
+	peer := NewRawPeer(r, b, byte(v))
+	obs := &c10Obs{sentPages: map[string][]string{}, maxPending: maxPending, N: N, nEvents: nEvents}
+	mainDone, handshakeOK := false, false
+	handlers := []client.EventHandler{
+		func(ev *frame.Frame, _ *client.CqlClientConnection) { obs.handlerSeen[0] = append(obs.handlerSeen[0], eventTag(ev)) },
+		func(ev *frame.Frame, _ *client.CqlClientConnection) { obs.handlerSeen[1] = append(obs.handlerSeen[1], eventTag(ev)) },
+	}
+	r.Go("main", func() {
+		defer func() { mainDone = true }()
+		cc, err := client.VerifNewClientConnection(a, ctx, nil, comp, N, maxPending, time.Hour, handlers)
+		if err != nil {
+			return
+		}
+		r.Cleanup(func() { _ = cc.Close(); cancel(); _ = b.Close() })
+		hs := make(doneChan)
+		var hsErr error
+		r.Go("hsPeer", func() { defer close(hs); hsErr = peer.ServerHandshake(); r.Yield("hs.s") })
+		err = cc.InitiateHandshake(v, client.ManagedStreamId)
+		r.Yield("hs.c")
+		<-hs
+		r.Yield("hs.joined")
+		if err != nil || hsErr != nil {
+			r.Violate(P, "handshake", "failed:raw", "fault-free handshake with the raw server failed: %v / %v", err, hsErr)
+			return
+		}
+		handshakeOK = true
+		var pending []RFrame
+		var pmu sync.Mutex
+		cond := NewCond()
+		readerDone, sendersDone := false, false
+		var pwg sync.WaitGroup
+		pwg.Add(2)
+		r.Go("peer.read", func() {
+			defer pwg.Done()
+			defer func() { pmu.Lock(); readerDone = true; pmu.Unlock(); cond.Bump() }()
+			for {
+				f, err := peer.ReadFrame()
+				r.Yield("peer.read")
+				if err != nil {
+					return
+				}
+				body, err := peer.DecodeBody(f)
+				if err != nil {
+					r.Violate(P, "wire", "raw-request-undecodable", "raw server cannot decode a request body: %v", err)
+					return
+				}
+				f.Body = body
+				pmu.Lock()
+				pending = append(pending, f)
+				pmu.Unlock()
+				cond.Bump()
+			}
+		})
+		evLeft, spLeft := nEvents, nSpurious
+		answererDone := false
+		r.Go("peer.answer", func() {
+			defer pwg.Done()
+			defer func() { answererDone = true }()
+			for {
+				cond.Wait(func() bool { pmu.Lock(); defer pmu.Unlock(); return len(pending) > 0 || sendersDone || readerDone })
+				pmu.Lock()
+				n, fin, ended := len(pending), sendersDone, readerDone
+				pmu.Unlock()
+				if n == 0 {
+					if ended {
+						return
+					}
+					if fin {
+						var envs [][]byte
+						for evLeft > 0 {
+							evLeft--
+							k := nEvents - evLeft
+							envs = append(envs, peer.Envelope(true, 0, -1, ROpEvent, RBodyEventStatusChange(true, [4]byte{10, 1, byte(k >> 8), byte(k)}, 9042), false))
+							obs.sentEvents = append(obs.sentEvents, fmt.Sprintf("ev%d", k))
+						}
+						if len(envs) > 0 {
+							_ = peer.SendEnvelopes(envs)
+						}
+						cond.Wait(func() bool { pmu.Lock(); defer pmu.Unlock(); return len(pending) > 0 || readerDone })
+						continue
+					}
+					continue
+				}
+				if d := T.DrawP("peer.hold", 30, 0.5); d > 0 {
+					r.Sleep(ms(d))
+				}
+				// one batch: answers to 1..3 pending requests (drawn), plus maybe an event and a spurious
+				// response, all handed to SendEnvelopes together so that they may share a segment
+				var envs [][]byte
+				var sentNow []string
+				if evLeft > 0 && T.Bool("peer.event", 0.3) {
+					evLeft--
+					k := nEvents - evLeft
+					envs = append(envs, peer.Envelope(true, 0, -1, ROpEvent, RBodyEventStatusChange(true, [4]byte{10, 1, byte(k >> 8), byte(k)}, 9042), false))
+					obs.sentEvents = append(obs.sentEvents, fmt.Sprintf("ev%d", k))
+				}
+				if spLeft > 0 && T.Bool("peer.spurious", 0.3) {
+					spLeft--
+					spId := int16(20000 + spLeft)
+					if v == primitive.ProtocolVersion2 {
+						spId = int16(100 + spLeft)
+					}
+					envs = append(envs, peer.Envelope(true, 0, spId, ROpResult, RBodyResultRows(1, [][][]byte{{[]byte(fmt.Sprintf("spurious%d#0", spLeft))}}, 0, false), false))
+					r.Probes["spurious_sent"]++
+				}
+				batch := 1 + T.Draw("peer.batch", 3)
+				for b := 0; b < batch; b++ {
+					pmu.Lock()
+					if len(pending) == 0 {
+						pmu.Unlock()
+						break
+					}
+					k := T.Draw("peer.pick", len(pending))
+					f := pending[k]
+					pending = append(pending[:k], pending[k+1:]...)
+					pmu.Unlock()
+					if k > 0 {
+						r.Probes["answered_out_of_order"]++
+					}
+					q, _ := RParseQuery(f.Body)
+					tag := q
+					p := plans[tag]
+					for pg := 0; pg < p.pages; pg++ {
+						cell := []byte(fmt.Sprintf("%s#%d", tag, pg))
+						var body []byte
+						if p.pages > 1 {
+							body = RBodyResultRows(1, [][][]byte{{cell}}, int32(pg+1), pg == p.pages-1)
+						} else {
+							body = RBodyResultRows(1, [][][]byte{{cell}}, 0, false)
+						}
+						envs = append(envs, peer.Envelope(true, 0, f.H.Stream, ROpResult, body, T.Bool("rawcompress", 0.3)))
+						sentNow = append(sentNow, tag+"|"+string(cell))
+					}
+					if p.pages > 1 {
+						r.Probes["multi_page_responses"]++
+					}
+				}
+				if err := peer.SendEnvelopes(envs); err != nil {
+					return
+				}
+				for _, sn := range sentNow {
+					parts := strings.SplitN(sn, "|", 2)
+					obs.sentPages[parts[0]] = append(obs.sentPages[parts[0]], parts[1])
+				}
+				r.Yield("peer.sent")
+			}
+		})
+		var wg sync.WaitGroup
+		for i := 0; i < K; i++ {
+			i := i
+			wg.Add(1)
+			r.Go(fmt.Sprintf("sender%d", i), func() {
+				defer wg.Done()
+				for j := 0; j < M; j++ {
+					rec := &c10Req{tag: fmt.Sprintf("q%d.%d", i, j)}
+					obs.reqs = append(obs.reqs, rec)
+					rec.req, rec.sendErr = cc.Send(queryFrame(v, client.ManagedStreamId, rec.tag))
+					r.Yield("sender.sent")
+					if rec.sendErr != nil || rec.req == nil {
+						r.Probes["send_refused"]++
+						continue
+					}
+					for {
+						if d := paceMs[rec.tag]; d > 0 {
+							r.Sleep(ms(d))
+						}
+						fr, err := cc.Receive(rec.req)
+						r.Yield("sender.recv")
+						if err != nil {
+							rec.recvErr = err
+							break
+						}
+						if fr == nil {
+							rec.closed = true
+							break
+						}
+						rec.got = append(rec.got, pageTag(fr))
+					}
+					rec.doneFlag = rec.req.IsDone()
+					rec.errAtEnd = rec.req.Err()
+					r.Yield("sender.checked")
+				}
+			})
+		}
+		wg.Wait()
+		r.Yield("senders.joined")
+		pmu.Lock()
+		sendersDone = true
+		pmu.Unlock()
+		cond.Bump()
+		for k := 0; k < 600; k++ {
+			r.Sleep(200 * time.Millisecond)
+			if len(obs.handlerSeen[0]) >= nEvents {
+				break
+			}
+		}
+		r.Sleep(200 * time.Millisecond)
+		evc := cc.EventChannel()
+	drain:
+		for {
+			select {
+			case ev, ok := <-evc:
+				if !ok {
+					break drain
+				}
+				obs.chanEvents = append(obs.chanEvents, eventTag(ev))
+			default:
+				break drain
+			}
+		}
+		_ = cc.Close()
+		r.Yield("closed.client")
+		pwg.Wait()
+		r.Yield("peer.joined")
+		_ = answererDone
+	})
+	if !r.Drive() {
+		r.Violate(P, "liveness", "step-budget", "run did not quiesce within %d steps", r.StepBudget)
+		return
+	}
+	for k, v := range peer.SegStats {
+		r.Probes[k] += v
+	}
+	if !mainDone {
+		if handshakeOK {
+			r.Violate(P, "liveness", "stuck:raw", "fault-free run against the raw server did not finish: a sender, the peer or Close is blocked at quiescence")
+		}
+		return
+	}
+	if !handshakeOK {
+		return
+	}
+	accepted := c10Judge(r, obs)
+	r.Nontrivial = accepted >= 2 && r.repoSwitches > 0
 }
